@@ -311,4 +311,81 @@ structure DerefSite where
   guarded : Bool
 deriving Repr, DecidableEq
 
+/-! ## HTTP front end: `getRemoteAddr` (apiregserver.go), with Go's indexing as a partial operation
+
+`clientIPHeaderNames` has one entry (`X-Forwarded-For`), so the `for … range` loop runs once and its
+`break` is the end of the function. Everything `net` does is a parameter: `remote` is
+`parseIP(r.RemoteAddr)` rendered as a string (`none` = the nil IP), `remoteIsLoopback` is
+`ip.Equal(127.0.0.1) || ip.Equal(::1)`, `parse cand` is `net.ParseIP(strings.TrimSpace(cand))` rendered
+as a string. What is *not* a parameter is the part that can panic: the three index expressions
+`values[len(values)-1]`, `IPs[len(IPs)-1]`, `IPs[len(IPs)-2]` and the function that produces `IPs`. -/
+
+/-- Go `l[i]` with an `int` index: out of range (negative, or `≥ len(l)`) is a run-time panic -/
+def indexAt {α : Type} (l : List α) (i : Int) : Outcome α :=
+  if i < 0 then .panic "index out of range"
+  else match l[i.toNat]? with
+    | some a => .ok a
+    | none => .panic "index out of range"
+
+/-- the loop of `strings.Split` for a one-byte separator: `cur` is the piece being read, reversed -/
+def splitOnAux (sep : UInt8) : Bytes → Bytes → List Bytes
+  | [], cur => [cur.reverse]
+  | b :: rest, cur =>
+    if b = sep then cur.reverse :: splitOnAux sep rest [] else splitOnAux sep rest (b :: cur)
+
+/-- Go `strings.Split(value, sep)` for a one-byte separator: `n` separators give `n + 1` pieces (empty
+ones included); the empty string gives ONE empty piece, never the empty slice -/
+def splitOn (sep : UInt8) (value : Bytes) : List Bytes := splitOnAux sep value []
+
+/-- the loop of `strings.FieldsFunc`: a piece ends at a separator, an empty piece is dropped -/
+def fieldsOnAux (seps : List UInt8) : Bytes → Bytes → List Bytes
+  | [], cur => if cur.isEmpty then [] else [cur.reverse]
+  | b :: rest, cur =>
+    if seps.contains b then
+      (if cur.isEmpty then fieldsOnAux seps rest [] else cur.reverse :: fieldsOnAux seps rest [])
+    else fieldsOnAux seps rest (b :: cur)
+
+/-- Go `strings.FieldsFunc(value, func(r) bool { return r ∈ seps })`: the maximal runs of
+non-separators — a string of separators only (or the empty string) gives the EMPTY slice. Not what
+`getRemoteAddr` calls; it is here to show what the index expressions after `strings.Split` rely on. -/
+def fieldsOn (seps : List UInt8) (value : Bytes) : List Bytes := fieldsOnAux seps value []
+
+/-- `getRemoteAddr`, parametric in the function that cuts the header value into candidates -/
+def getRemoteAddrWith (split : Bytes → List Bytes) (remote : Option String) (remoteIsLoopback : Bool)
+    (values : List Bytes) (parse : Bytes → Option String) : Outcome (Option String) :=
+  -- ip := parseIP(r.RemoteAddr); values := r.Header.Values("X-Forwarded-For")
+  if values.length > 0 then
+    -- value := values[len(values)-1]
+    (indexAt values ((values.length : Int) - 1)).bind fun value =>
+    -- IPs := strings.Split(value, ","); IP := IPs[len(IPs)-1]
+    let IPs := split value
+    (indexAt IPs ((IPs.length : Int) - 1)).bind fun last =>
+    -- if len(IPs) > 1 && (ip.Equal(127.0.0.1) || ip.Equal(::1)) { IP = IPs[len(IPs)-2] }
+    let chosen : Outcome Bytes :=
+      if IPs.length > 1 ∧ remoteIsLoopback = true then indexAt IPs ((IPs.length : Int) - 2) else .ok last
+    chosen.bind fun IP =>
+    -- headerIP := net.ParseIP(strings.TrimSpace(IP)); if headerIP != nil { ip = headerIP; break }
+    match parse IP with
+    | some headerIP => .ok (some headerIP)
+    | none => .ok remote
+  else .ok remote
+
+/-- `getRemoteAddr(r)`: the client address the handlers go on with (`none` = nil); 44 is the byte `,` -/
+def getRemoteAddr (remote : Option String) (remoteIsLoopback : Bool) (values : List Bytes)
+    (parse : Bytes → Option String) : Outcome (Option String) :=
+  getRemoteAddrWith (splitOn 44) remote remoteIsLoopback values parse
+
+/-- `register` from the request as it arrives: `clientAddr := getRemoteAddr(r)`, then the handler; the
+field `remoteAddrOk` of `r` is overwritten with what `getRemoteAddr` found -/
+def registerHttp (remote : Option String) (remoteIsLoopback : Bool) (values : List Bytes)
+    (parse : Bytes → Option String) (r : HttpReq) (proc : ProcResult) : Outcome Nat :=
+  (getRemoteAddr remote remoteIsLoopback values parse).bind fun ip =>
+    register { r with remoteAddrOk := ip.isSome } proc
+
+/-- `registerBidirectional` from the request as it arrives -/
+def registerBidirectionalHttp (remote : Option String) (remoteIsLoopback : Bool) (values : List Bytes)
+    (parse : Bytes → Option String) (r : HttpReq) (serverConfNewer : Bool) (proc : ProcResult) : Outcome Nat :=
+  (getRemoteAddr remote remoteIsLoopback values parse).bind fun ip =>
+    registerBidirectional { r with remoteAddrOk := ip.isSome } serverConfNewer proc
+
 end CJ.Ingress
